@@ -458,14 +458,10 @@ def _positions(index, k, what="label"):
             return [i for i, v in enumerate(ks) if v]
         pos = []
         for lab in ks:
-            found = None
-            for i, l2 in enumerate(labs):
-                if _eq(l2, lab):
-                    found = i
-                    break
-            if found is None:
+            found = [i for i, l2 in enumerate(labs) if _eq(l2, lab)]  # (a label recorded several times selects all its rows)
+            if not found:
                 raise KeyError("%r not in index" % (lab,))
-            pos.append(found)
+            pos.extend(found)
         return pos
     for i, l2 in enumerate(labs):
         if _eq(l2, k):
@@ -992,7 +988,7 @@ class _DFLoc:
             pos = list(_b.range(len(df)))
         else:
             pos = _positions(df.index, r)
-        if c is None:
+        if c is None or (isinstance(c, slice) and c == slice(None)):
             if isinstance(pos, list):
                 return df.iloc[pos, :]
             return Series([df._cols[n][pos] for n in df.columns], index=Index(list(df.columns)))
